@@ -131,6 +131,37 @@ def inj_two_groups(spec, r):
     return spec
 
 
+def inj_two_same_groups(spec, r):
+    """Two adjacent group relations of the SAME kind and cardinality under one parent."""
+    k = r.randint(2, 3)
+    mn, mx = r.choice([(1, 1), (1, k), (1, 2) if k > 2 else (0, 2), (0, 1)])
+    p = add_group(spec, r, mn, mx, k, leaf_only=True)
+    if not p:
+        return None
+    p["rels"].append({"min": mn, "max": mx, "children": [{"name": n, "rels": []} for n in _fresh(spec, r, k)]})
+    return spec
+
+
+def inj_case_twin(spec, r):
+    """Two distinct features whose names differ only in letter case, both referenced by constraints."""
+    feats = _feats(spec)
+    if len(feats) < 3:
+        return None
+    a, b = r.sample(feats[1:], 2) if len(feats) > 2 else (feats[0], feats[1])
+    twin = a["name"].swapcase()
+    names = set(S.feature_names(spec))
+    if twin == a["name"] or twin in names:
+        return None
+    old = b["name"]
+    b["name"] = twin
+    for c in spec["ctcs"]:
+        c["ast"] = _subst(c["ast"], old, twin)
+    other = feats[0]["name"]
+    _add_ctc(spec, ["REQUIRES", a["name"], other])
+    _add_ctc(spec, ["REQUIRES", twin, other])
+    return spec
+
+
 def inj_nested_groups(spec, r):
     p = add_group(spec, r, 1, 1, 3, leaf_only=True)
     if not p:
